@@ -3,6 +3,7 @@
 //   --sub mut    case k = seeded structure-aware mutation of a seed file, pure function of (seed, k)
 //   --sub file   --entry E --variant V --file PATH [--faultkey KEY]   one case from a file (replay, strace fault injection)
 //   --sub list   --list FILE   case k = k-th line "<entry> <variant> <path>" of FILE (valgrind replay of corpus files)
+//   --dumpdir DIR  (any sub) write each case's input to DIR/case<k>.<entry>.<variant>.bin before running it
 //   --sub dumpseeds --out DIR  write the seed pool to DIR/<kind>/  (corpus for libFuzzer)
 // A read that does not return within its CPU-time budget is retried once with 4x the budget (first occurrence of a signature)
 // and then reported as C13:hang:<entry>:<top SoPlex frame>; the process re-executes itself at case+1 so the shard goes on.
@@ -190,6 +191,7 @@ static void execCase(long long k, const std::string& sub, const CaseIn& in, cons
                  b64(shown)).done();
    if(verbose) fprintf(stderr, "case %lld %s variant %u [%s] %s\n---- input (%zu bytes)\n%s\n----\n", k, entryName[in.entry], in.variant, cat.c_str(), label.c_str(), in.bytes.size(),
                           jesc(in.bytes.substr(0, 4000)).c_str());
+   if(cli.extra.count("dumpdir")) writeWhole(cli.extra["dumpdir"] + "/case" + std::to_string(k) + "." + std::to_string(in.entry) + "." + std::to_string(in.variant) + ".bin", in.bytes);
    if(g_retryCase == k) g_timeScale *= 4;
    CaseOut out;
    runCase(in, out);
